@@ -30,8 +30,16 @@ func c08Pop(c *Ctx) {
 	}()
 	nz := 1 + r.Intn(2)
 	for i := 0; i < nz; i++ {
-		m, archs := genSet(r, GenOpts{MaxChunks: 5, HeavyP: 0.4, Keys: []uint64{0, 1, 2, 3, 0xFFFE, 0xFFFF}})
-		src, es := buildForm(r, m, []string{"addmany", "opt", "range", "mixed"}[r.Intn(4)])
+		keys := []uint64{0, 1, 2, 3, 0xFFFE, 0xFFFF}
+		srcForms := []string{"addmany", "opt", "range", "mixed"}
+		if r.Chance(0.3) {
+			// low keys only, so that the source can also come from a dense word slice (FromDense keeps full chunks
+			// as bitmap chunks, a kind/cardinality pairing the mutation API never leaves behind)
+			keys = []uint64{0, 1, 2, 3, 5}
+			srcForms = []string{"dense", "dense", "addmany", "opt"}
+		}
+		m, archs := genSet(r, GenOpts{MaxChunks: 5, HeavyP: 0.4, Keys: keys})
+		src, es := buildForm(r, m, srcForms[r.Intn(len(srcForms))])
 		if es != "" {
 			c.Fail("build", "%s", es)
 			return
@@ -56,6 +64,14 @@ func c08Pop(c *Ctx) {
 		}
 		regs = append(regs, reg)
 		z := roaring.New()
+		if r.Chance(0.4) {
+			// the receiver of a zero-copy load may have been used before (larger, smaller, copy-on-write, grown by
+			// appends, cleared, itself zero-copy): its old tables and flags must not leak into the new contents
+			var how string
+			z, how = reusedReceiver(c)
+			c.Step("receiver %s", how)
+			c.Count("receiver_" + how)
+		}
 		if c.Guard(entry, func() {
 			switch entry {
 			case "FromBuffer":
